@@ -250,8 +250,15 @@ func bdsFromSpec(start, n uint64, m map[string]string, bdlen uint64) rollapptype
 		tsAll = true
 	}
 	drs := uint32(atou(m["drs"]))
+	drs0 := drs // optional `drs0=<v>`: the DRS version of every descriptor except the last one
+	if v, ok := m["drs0"]; ok {
+		drs0 = uint32(atou(v))
+	}
 	for i := uint64(0); i < bdlen; i++ {
-		bd := rollapptypes.BlockDescriptor{Height: start + i, StateRoot: make([]byte, 32), DrsVersion: drs}
+		bd := rollapptypes.BlockDescriptor{Height: start + i, StateRoot: make([]byte, 32), DrsVersion: drs0}
+		if i+1 == bdlen {
+			bd.DrsVersion = drs
+		}
 		if int64(i) == seqerr {
 			bd.Height = start + i + 1
 		}
